@@ -175,6 +175,9 @@ func c03Programs() []string {
 		"Patient.birthDate.value", "Patient.meta.tag.code", "Bundle.entry.resource", "Bundle.entry.resource.name.given", "Observation.value", "Observation.value.value", "Observation.effective", "Observation.issued",
 		"Observation.component.value", "Questionnaire.item.item.linkId",
 		// collections passed in, with spare capacity, through every subsetting / filtering / set function
+		// elements handed through functions of the caller's own: what comes back are still the input's nodes
+		"Patient.name.keep()", "Patient.name.keep().given", "Patient.name.keep().where(use = 'official').given.keep()", "%c.keep()", "%c.keep().take(2)", "Patient.name.where(false).orElse(%el)", "Patient.name.first().both(%el)",
+		"Patient.name.first().both(%el).given", "Patient.telecom.keep().rank", "%el.keep().given.keep()",
 		"%c.where(true)", "%c.where($this is Integer)", "%c.where($this is String)", "%c.where($this is HumanName)", "%c.where($this.toString() != '3')", "%c.where($this is Integer).count() + %c.count()",
 		"%c.exists($this is String)", "%c.exists($this is HumanName)", "%c.all($this is Integer)", "%c.where($this is String).where(true)", "%c.tail().where($this is HumanName)", "%c.select($this)", "%c.select(%d)", "%c.select(%d.take(1))", "Patient.name.select(%c)", "Patient.name.select(%c.take(1))", "Patient.name.select(%c.skip(1))",
 		"Patient.name.select(%c.tail())", "Patient.name.select(%e)", "%c.take(1)", "%c.take(2)", "%c.skip(1)", "%c.tail()", "%c.first()", "%c.last()", "%c[0]", "%c.distinct()", "%c.isDistinct()", "%c.exclude(%d)",
@@ -342,7 +345,17 @@ func init() {
 									before[k] = c03Finger(res)
 								}
 								aliasBefore := c03Finger(alias)
-								comp := lib.Compile(src, compopts.WithExperimentalFuncs())
+								comp := lib.Compile(src, compopts.WithExperimentalFuncs(),
+									compopts.AddFunction("keep", func(in system.Collection) (system.Collection, error) { return in, nil }),
+									compopts.AddFunction("orElse", func(in system.Collection, alt system.Any) (system.Collection, error) {
+										if len(in) > 0 {
+											return in, nil
+										}
+										return system.Collection{alt}, nil
+									}),
+									compopts.AddFunction("both", func(in system.Collection, alt system.Any) (system.Collection, error) {
+										return append(append(system.Collection{}, in...), alt), nil
+									}))
 								if comp.Panic != nil || comp.CompileErr != nil {
 									continue // C01/C16 territory
 								}
